@@ -99,7 +99,8 @@ pub enum Op {
     Clear,
     Truncate { n: Size },
     Flush,
-    /// mode: 0 map_mut, 1 map_copy, 2 map, 3 map_copy_read_only; cap: 0 same, 1 larger, 2 absent
+    /// mode: 0 map_mut, 1 map_copy, 2 map, 3 map_copy_read_only; cap: 0 same, 1 larger, 2 absent, 3 below the stored
+    /// cursor (only honoured when the running check asks for it, otherwise the same as 0)
     Reopen {
         mode: u8,
         cap: u8,
@@ -153,6 +154,8 @@ pub struct Profile {
     pub prelude_pct: u32,
     /// percentage of typed allocations that use a drop-counting type
     pub drop_ty_pct: u32,
+    /// increase_discarded with values over the whole u32 range (C20: the counter saturates, it never wraps)
+    pub big_incdisc: bool,
 }
 
 pub const BOTH: &[Fl] = &[Fl::Sync, Fl::Unsync];
@@ -199,6 +202,7 @@ impl Profile {
             reopen_modes: &[(1, 0)],
             prelude_pct: 40,
             drop_ty_pct: 10,
+            big_incdisc: false,
         }
     }
 }
@@ -359,7 +363,21 @@ pub fn op_strategy(p: &Profile) -> BoxedStrategy<Op> {
             .prop_map(|v| Op::SetMinSeg { v })
             .boxed(),
     );
-    add(p.w_incdisc, (0u32..5000).prop_map(|v| Op::IncDiscarded { v }).boxed());
+    if p.big_incdisc {
+        add(
+            p.w_incdisc,
+            prop_oneof![
+                6 => 0u32..5000,
+                1 => (0u32..300).prop_map(|k| u32::MAX - k),
+                1 => (0u32..300).prop_map(|k| (1u32 << 31) - 150 + k),
+                1 => any::<u32>(),
+            ]
+            .prop_map(|v| Op::IncDiscarded { v })
+            .boxed(),
+        );
+    } else {
+        add(p.w_incdisc, (0u32..5000).prop_map(|v| Op::IncDiscarded { v }).boxed());
+    }
     add(p.w_rewind, pos_strategy().prop_map(|pos| Op::Rewind { pos }).boxed());
     add(p.w_clear, Just(Op::Clear).boxed());
     add(
@@ -375,7 +393,7 @@ pub fn op_strategy(p: &Profile) -> BoxedStrategy<Op> {
     add(p.w_flush, Just(Op::Flush).boxed());
     add(
         p.w_reopen,
-        (weighted(p.reopen_modes), 0u8..3, any::<bool>(), (0u8..3).prop_map(|x| x == 0), prop_oneof![2 => Just(0u8), 1 => 0u8..32])
+        (weighted(p.reopen_modes), prop_oneof![9 => 0u8..3, 1 => Just(3u8)], any::<bool>(), (0u8..3).prop_map(|x| x == 0), prop_oneof![2 => Just(0u8), 1 => 0u8..32])
             .prop_map(|(mode, cap, create, pb, flags)| Op::Reopen { mode, cap, create, pb, flags })
             .boxed(),
     );
